@@ -253,10 +253,16 @@ Qed.
 Lemma zseq_length b n : length (zseq b n) = n.
 Proof. unfold zseq. now rewrite map_length, seq_length. Qed.
 
-Lemma step_good d o d' : Good d -> arg_good o -> step all_off d o = Some d' -> Good d'.
+Lemma step_step0 q d o d' : step q d o = Some d' -> step0 q d o = Some d' /\ wf_dset d' = true.
+Proof.
+  unfold step. destruct (step0 q d o) as [d1|]; [|discriminate].
+  destruct (wf_dset d1) eqn:E; [|discriminate]. intro H. inversion H; subst. now split.
+Qed.
+
+Lemma step0_good d o d' : Good d -> arg_good o -> step0 all_off d o = Some d' -> Good d'.
 Proof.
   intros Hd Ha H. destruct o; simpl in H, Ha.
-  - destruct (fields d) eqn:Ef; [|discriminate]. inversion H; subst.
+  - destruct (fields d) eqn:Ef; [|discriminate]. destruct (colls d); [|discriminate]. inversion H; subst.
     split; simpl; [apply zseq_length|constructor].
   - eapply add_field_good; eauto.
   - destruct (Nat.eqb (length m) (num_obs d)); [|discriminate]. inversion H; subst. now apply take_all_good.
@@ -265,10 +271,13 @@ Proof.
   - exact (merge_good d os sort_by d' Hd Ha H).
   - exact (difference_good d o index_by d' Hd H).
   - destruct (slookup path (fields d)); [|discriminate]. inversion H; subst. exact Hd.
-  - inversion H; subst. exact Hd.
+  - destruct (existsb (String.eqb path) (colls d) || _); [discriminate|]. inversion H; subst. exact Hd.
   - inversion H; subst. exact Hd.
   - inversion H; subst. exact Hd.
 Qed.
+
+Lemma step_good d o d' : Good d -> arg_good o -> step all_off d o = Some d' -> Good d'.
+Proof. intros Hd Ha H. apply step_step0 in H. destruct H as [H _]. exact (step0_good d o d' Hd Ha H). Qed.
 
 Lemma run_good ops : forall d d', Good d -> Forall arg_good ops -> run all_off d ops = Some d' -> Good d'.
 Proof.
@@ -318,6 +327,7 @@ Lemma subset_idx_spec d ix d' :
   num_obs d' = length ix /\ rowids d' = take 0%Z ix (rowids d) /\ fields d' = fields d /\
   (forall o ob, In (o, ob) (store d) -> In (o, set_rows ob (take fillcell_d ix (orows ob))) (store d')).
 Proof.
+  intro H0. apply step_step0 in H0. destruct H0 as [H0 _]. revert H0.
   simpl. destruct (forallb (fun i => Nat.ltb i (num_obs d)) ix) eqn:E; [|discriminate].
   intro H. inversion H; subst; clear H. split; [|repeat split].
   - intros i Hi. rewrite forallb_forall in E. specialize (E i Hi). now apply Nat.ltb_lt.
@@ -327,14 +337,14 @@ Qed.
 Lemma subset_mask_as_idx d m :
   length m = num_obs d -> step all_off d (SubsetMask m) = step all_off d (SubsetIdx (mask_idx m)).
 Proof.
-  intro H. simpl. rewrite H, Nat.eqb_refl.
+  intro H. unfold step. simpl. rewrite H, Nat.eqb_refl.
   assert (E : forallb (fun i => Nat.ltb i (num_obs d)) (mask_idx m) = true).
   { apply forallb_forall. intros i Hi. apply Nat.ltb_lt. rewrite <- H. now apply mask_idx_in_range. }
   now rewrite E.
 Qed.
 
 Lemma subset_mask_wrong_length d m : length m <> num_obs d -> step all_off d (SubsetMask m) = None.
-Proof. intro H. simpl. apply Nat.eqb_neq in H. now rewrite H. Qed.
+Proof. intro H. unfold step. simpl. apply Nat.eqb_neq in H. now rewrite H. Qed.
 
 (* ------------------------------------------------------------------ extend *)
 Lemma sequence_map_In A B (f : A -> option B) l r x :
@@ -661,7 +671,7 @@ Qed.
 
 (* ------------------------------------------------------------------ the memo walk *)
 Section Walk.
-  Variable f : obj -> obj.
+  Variable f : nat -> obj -> obj.
   Variable old : list (nat * obj).
 
   Definition dom (w : wst) : list nat := map fst (wmemo w).
@@ -675,7 +685,7 @@ Section Walk.
     NoDup (map snd (wmemo w)) /\
     NoDup (map fst (wnew w)) /\
     (forall o n, In (o, n) (wmemo w) ->
-       exists ob rs, lookup o old = Some ob /\ In (n, set_refs (f ob) rs) (wnew w) /\
+       exists ob rs, lookup o old = Some ob /\ In (n, set_refs (f o ob) rs) (wnew w) /\
                      Forall2 (ref_ok w) (orefs ob) rs).
 
   Definition Ext (w w' : wst) : Prop :=
@@ -737,7 +747,7 @@ Section Walk.
       assert (Hno : ~ In o (dom w1)).
       { apply (K1 o); [now left|]. now apply lookup_None_notin. }
       destruct Hi1 as [N1 [B1 [B2 [N2 [N3 C1]]]]].
-      set (wf := mkW ((o, wnext w1) :: wmemo w1) ((wnext w1, set_refs (f ob) rs) :: wnew w1) (S (wnext w1))).
+      set (wf := mkW ((o, wnext w1) :: wmemo w1) ((wnext w1, set_refs (f o ob) rs) :: wnew w1) (S (wnext w1))).
       assert (Xf : Ext w1 wf). { repeat split; simpl; auto using incl_tl, incl_refl. }
       split; [|split; [|split]].
       + split; [|split; [|split; [|split; [|split]]]]; simpl.
@@ -823,10 +833,10 @@ Lemma shared_reference_once_l d ix d' :
                      Forall2 (fun ar r => fst r = fst ar /\ In (snd ar, snd r) memo) (orefs ob) rs).
 Proof.
   unfold subset_walk. intro H.
-  destruct (walk_fields (S (length (store d))) (take_obj ix) (store d) (fields d) (mkW [] [] (next d)))
+  destruct (walk_fields (S (length (store d))) (fun _ => take_obj ix) (store d) (fields d) (mkW [] [] (next d)))
     as [[w fs]|] eqn:E; [|discriminate].
   inversion H; subst; clear H. simpl. split; [reflexivity|]. split; [reflexivity|].
-  destruct (walk_fields_ok _ _ _ _ _ _ _ (Inv_init (take_obj ix) (store d) (next d)) E) as [Hi [_ Hf]].
+  destruct (walk_fields_ok _ _ _ _ _ _ _ (Inv_init (fun _ => take_obj ix) (store d) (next d)) E) as [Hi [_ Hf]].
   destruct Hi as [N1 [_ [_ [N2 [N3 C]]]]].
   exists (wmemo w). split; [exact Hf|]. split.
   - intros o n1 n2. now apply NoDup_fst_functional.
@@ -846,3 +856,258 @@ Lemma sharing_lost_refuted :
   (exists d, extend_empty_walk true w_sharing ["site"] = Some d /\ ref_is_field d "site" "other" "sat" = false) /\
   (exists d, extend_empty_walk false w_sharing ["site"] = Some d /\ ref_is_field d "site" "other" "sat" = true).
 Proof. split; [vm_compute; reflexivity|]. split; eexists; split; vm_compute; reflexivity. Qed.
+
+(* ------------------------------------------------------------------ collections *)
+Lemma coll_len_cases d c : Good d -> coll_len d c = num_obs d \/ coll_len d c = 0.
+Proof.
+  intro G. unfold coll_len. destruct (find (fun pf => is_under c (fst pf)) (fields d)) as [pf|]; [|now right].
+  destruct (lookup (snd pf) (store d)) as [ob|] eqn:E; [|now right].
+  left. apply lookup_In in E. exact (good_rect d G _ _ E).
+Qed.
+
+Lemma coll_len_no_fields d c : (forall pf, In pf (fields d) -> is_under c (fst pf) = false) -> coll_len d c = 0.
+Proof.
+  intro H. unfold coll_len. destruct (find (fun pf => is_under c (fst pf)) (fields d)) as [pf|] eqn:E; [|reflexivity].
+  apply find_some in E. destruct E as [E1 E2]. rewrite (H _ E1) in E2. discriminate.
+Qed.
+
+Lemma collections_in_histories_l ops d :
+  Forall arg_good ops -> run all_off empty_dset ops = Some d ->
+  forall c, (coll_len d c = num_obs d \/ coll_len d c = 0) /\
+            ((forall pf, In pf (fields d) -> is_under c (fst pf) = false) -> coll_len d c = 0).
+Proof.
+  intros Ha H c. split; [apply coll_len_cases; exact (run_good ops empty_dset d good_empty Ha H)|apply coll_len_no_fields].
+Qed.
+
+Lemma add_collection_spec_l d p d' :
+  step all_off d (AddColl p) = Some d' ->
+  num_obs d' = num_obs d /\ rowids d' = rowids d /\ store d' = store d /\ fields d' = fields d /\
+  existsb (String.eqb p) (colls d) = false.
+Proof.
+  intro H0. apply step_step0 in H0. destruct H0 as [H0 _]. revert H0.
+  simpl. destruct (existsb (String.eqb p) (colls d)) eqn:E; [discriminate|].
+  destruct (slookup p (fields d)); simpl; [discriminate|]. intro H. inversion H; subst. simpl. now repeat split.
+Qed.
+
+Lemma slookup_filter_out A p (l : list (string * A)) :
+  slookup p (filter (fun pf => negb (String.eqb (fst pf) p)) l) = None.
+Proof.
+  induction l as [|[k v] l IH]; simpl; [reflexivity|].
+  destruct (String.eqb k p) eqn:E; simpl; [exact IH|].
+  rewrite String.eqb_sym in E. now rewrite E.
+Qed.
+
+Lemma del_keeps_collections_l d p d' :
+  step all_off d (Del p) = Some d' ->
+  num_obs d' = num_obs d /\ store d' = store d /\ colls d' = colls d /\ slookup p (fields d') = None.
+Proof.
+  intro H0. apply step_step0 in H0. destruct H0 as [H0 _]. revert H0.
+  simpl. destruct (slookup p (fields d)); [|discriminate]. intro H. inversion H; subst. simpl.
+  repeat split. apply slookup_filter_out.
+Qed.
+
+(* ------------------------------------------------------------------ the walk terminates on well-formed stores *)
+Definition dstep (dp : nat -> option nat) (acc : option nat) (ar : string * nat) : option nat :=
+  match acc, dp (snd ar) with Some m, Some k => Some (Nat.max m (S k)) | _, _ => None end.
+
+Lemma depth_unfold f st o :
+  depth (S f) st o = match lookup o st with
+                     | None => None
+                     | Some ob => fold_left (dstep (depth f st)) (orefs ob) (Some 0)
+                     end.
+Proof. reflexivity. Qed.
+
+Lemma fold_dstep_None dp l : fold_left (dstep dp) l None = None.
+Proof. induction l; simpl; auto. Qed.
+
+Lemma dstep_Some dp m x :
+  dstep dp (Some m) x = match dp (snd x) with Some k => Some (Nat.max m (S k)) | None => None end.
+Proof. reflexivity. Qed.
+
+(* the fold succeeds iff every reference has a depth, and the result bounds them *)
+Lemma fold_dstep_Some dp l : forall m k,
+  fold_left (dstep dp) l (Some m) = Some k ->
+  m <= k /\ forall ar, In ar l -> exists kr, dp (snd ar) = Some kr /\ kr < k.
+Proof.
+  induction l as [|x l IH]; intros m k H; cbn [fold_left] in H.
+  - inversion H; subst. split; [lia|intros ar []].
+  - rewrite dstep_Some in H. destruct (dp (snd x)) as [kx|] eqn:Ex; [|now rewrite fold_dstep_None in H].
+    destruct (IH _ _ H) as [Hm Hl]. split; [lia|].
+    intros ar [<-|Hin]; [exists kx; split; [assumption|lia]|auto].
+Qed.
+
+Lemma fold_dstep_ext dp1 dp2 l : forall acc,
+  (forall ar k, In ar l -> dp1 (snd ar) = Some k -> dp2 (snd ar) = Some k) ->
+  forall k, fold_left (dstep dp1) l acc = Some k -> fold_left (dstep dp2) l acc = Some k.
+Proof.
+  induction l as [|x l IH]; intros acc H k Hk; cbn [fold_left] in *; [exact Hk|].
+  destruct acc as [m|]; [|change (dstep dp1 None x) with (@None nat) in Hk; now rewrite fold_dstep_None in Hk].
+  rewrite dstep_Some in Hk. rewrite dstep_Some.
+  destruct (dp1 (snd x)) as [kx|] eqn:Ex; [|now rewrite fold_dstep_None in Hk].
+  rewrite (H x kx (or_introl eq_refl) Ex). apply IH; [|exact Hk]. intros ar k' Hin. apply H. now right.
+Qed.
+
+Lemma depth_mono st : forall f o k, depth f st o = Some k -> depth (S f) st o = Some k.
+Proof.
+  induction f as [|f IH]; intros o k H; [discriminate|].
+  rewrite depth_unfold in H. rewrite depth_unfold.
+  destruct (lookup o st) as [ob|]; [|discriminate].
+  eapply fold_dstep_ext; [|exact H]. intros ar k' _. apply IH.
+Qed.
+
+Lemma depth_refs F st o k :
+  depth (S F) st o = Some k ->
+  exists ob, lookup o st = Some ob /\
+             forall ar, In ar (orefs ob) -> exists kr, depth (S F) st (snd ar) = Some kr /\ kr < k.
+Proof.
+  rewrite depth_unfold. destruct (lookup o st) as [ob|]; [|discriminate]. intro H.
+  exists ob. split; [reflexivity|]. destruct (fold_dstep_Some _ _ _ _ H) as [_ Hl].
+  intros ar Hin. destruct (Hl ar Hin) as [kr [H1 H2]]. exists kr. split; [now apply depth_mono|assumption].
+Qed.
+
+Section WalkTerminates.
+  Variable f : nat -> obj -> obj.
+  Variable st : list (nat * obj).
+  Variable F : nat.
+
+  Definition deeper (k : nat) (path : list nat) : Prop :=
+    forall p, In p path -> exists kp, depth (S F) st p = Some kp /\ k < kp.
+
+  Lemma walk_list_total (rec : wst -> nat -> option (wst * nat)) rl :
+    (forall ar, In ar rl -> forall w, exists w' n, rec w (snd ar) = Some (w', n)) ->
+    forall w, exists w' rs, walk_list rec rl w = Some (w', rs).
+  Proof.
+    induction rl as [|ar rl IH]; intros H w; simpl; [eauto|].
+    destruct (H ar (or_introl eq_refl) w) as [w1 [n E1]]. rewrite E1.
+    destruct (IH (fun a Ha => H a (or_intror Ha)) w1) as [w2 [rs E2]]. rewrite E2. eauto.
+  Qed.
+
+  Lemma walk_total : forall k fuel o path w,
+    k < fuel -> depth (S F) st o = Some k -> deeper k path ->
+    exists w' n, walk fuel f st path w o = Some (w', n).
+  Proof.
+    induction k as [k IH] using lt_wf_ind. intros fuel o path w Hf Hd Hp.
+    destruct fuel as [|fu]; [lia|]. simpl.
+    destruct (lookup o (wmemo w)) as [m|]; [eauto|].
+    assert (Ep : existsb (Nat.eqb o) path = false).
+    { destruct (existsb (Nat.eqb o) path) eqn:E; [|reflexivity].
+      apply existsb_exists in E. destruct E as [p [Hin He]]. apply Nat.eqb_eq in He. subst p.
+      destruct (Hp o Hin) as [kp [H1 H2]]. rewrite Hd in H1. inversion H1. lia. }
+    rewrite Ep. destruct (depth_refs _ _ _ _ Hd) as [ob [El Hr]]. rewrite El.
+    assert (Hl : forall w0, exists w' rs, walk_list (walk fu f st (o :: path)) (orefs ob) w0 = Some (w', rs)).
+    { apply walk_list_total. intros ar Hin w0. destruct (Hr ar Hin) as [kr [H1 H2]].
+      apply (IH kr H2 fu (snd ar) (o :: path) w0); [lia|exact H1|].
+      intros p [<-|Hin']; [exists k; split; [assumption|lia]|].
+      destruct (Hp p Hin') as [kp [H3 H4]]. exists kp. split; [assumption|lia]. }
+    destruct (Hl w) as [w1 [rs E]]. rewrite E. eauto.
+  Qed.
+End WalkTerminates.
+
+Lemma depth_lt_fuel st : forall f o k, depth f st o = Some k -> k < f.
+Proof.
+  induction f as [|f IH]; intros o k H; [discriminate|].
+  rewrite depth_unfold in H. destruct (lookup o st) as [ob|]; [|discriminate].
+  assert (G : forall l m k', fold_left (dstep (depth f st)) l (Some m) = Some k' -> m <= f -> k' <= f).
+  { induction l as [|x l IHl]; intros m k' Hk Hm; cbn [fold_left] in Hk; [inversion Hk; lia|].
+    rewrite dstep_Some in Hk. destruct (depth f st (snd x)) as [kx|] eqn:Ex; [|now rewrite fold_dstep_None in Hk].
+    apply (IHl _ _ Hk). apply IH in Ex. lia. }
+  specialize (G _ _ _ H). lia.
+Qed.
+
+Lemma wf_store_depth st o ob :
+  wf_store st = true -> In (o, ob) st -> exists k, depth (S (length st)) st o = Some k /\ k < S (length st).
+Proof.
+  unfold wf_store. intros H Hin. apply andb_prop in H. destruct H as [_ H].
+  rewrite forallb_forall in H. specialize (H _ Hin). cbn [fst] in H.
+  destruct (depth (S (length st)) st o) as [k|] eqn:E; [|discriminate].
+  exists k. split; [reflexivity|]. exact (depth_lt_fuel _ _ _ _ E).
+Qed.
+
+Lemma subset_walk_total d ix : wf_dset d = true -> exists d', subset_walk d ix = Some d'.
+Proof.
+  unfold wf_dset. intro H. apply andb_prop in H. destruct H as [Hs Hf]. rewrite forallb_forall in Hf.
+  unfold subset_walk, walk_fields.
+  destruct (walk_list_total (walk (S (length (store d))) (fun _ => take_obj ix) (store d) []) (fields d)) with
+      (w := mkW [] [] (next d)) as [w' [fs E]].
+  - intros pf Hin w. specialize (Hf _ Hin). destruct (lookup (snd pf) (store d)) as [ob|] eqn:El; [|discriminate].
+    apply lookup_In in El. destruct (wf_store_depth _ _ _ Hs El) as [k [Hk Hlt]].
+    apply (walk_total (fun _ => take_obj ix) (store d) (length (store d)) k); [exact Hlt|exact Hk|intros p []].
+  - rewrite E. eauto.
+Qed.
+
+Lemma run_wf q ops : forall d0 d, wf_dset d0 = true -> run q d0 ops = Some d -> wf_dset d = true.
+Proof.
+  induction ops as [|o ops IH]; intros d0 d H0 H; simpl in H.
+  - now inversion H; subst.
+  - destruct (step q d0 o) as [d1|] eqn:E; [|discriminate].
+    apply step_step0 in E. destruct E as [_ E]. exact (IH d1 d E H).
+Qed.
+
+(* the walk of subset / sort terminates on every state any operation list reaches *)
+Lemma walk_terminates_l ops d ix :
+  run all_off empty_dset ops = Some d -> exists d', subset_walk d ix = Some d'.
+Proof. intro H. apply subset_walk_total. exact (run_wf all_off ops empty_dset d eq_refl H). Qed.
+
+(* reachable states: unique identities, every field and reference names an object of the store, no cycle *)
+Lemma reachable_wf_l ops d :
+  run all_off empty_dset ops = Some d ->
+  wf_dset d = true /\
+  (forall o ob, In (o, ob) (store d) -> forall ar, In ar (orefs ob) ->
+     exists ob' k k', lookup (snd ar) (store d) = Some ob' /\
+        depth (S (length (store d))) (store d) o = Some k /\
+        depth (S (length (store d))) (store d) (snd ar) = Some k' /\ k' < k).
+Proof.
+  intro H. pose proof (run_wf all_off ops empty_dset d eq_refl H) as W. split; [exact W|].
+  unfold wf_dset in W. apply andb_prop in W. destruct W as [Ws _].
+  intros o ob Hin ar Har. destruct (wf_store_depth _ _ _ Ws Hin) as [k [Hk _]].
+  destruct (depth_refs _ _ _ _ Hk) as [ob0 [El Hr]].
+  assert (ob0 = ob).
+  { unfold wf_store in Ws. apply andb_prop in Ws. destruct Ws as [Wn _].
+    assert (Hl : lookup o (store d) = Some ob).
+    { apply In_NoDup_lookup; [|exact Hin]. clear -Wn. induction (map fst (store d)) as [|x l IH]; [constructor|].
+      simpl in Wn. apply andb_prop in Wn. destruct Wn as [W1 W2]. constructor; [|now apply IH].
+      intro Hc. apply negb_true_iff in W1. assert (existsb (Nat.eqb x) l = true); [|congruence].
+      apply existsb_exists. exists x. split; [assumption|apply Nat.eqb_refl]. }
+    congruence. }
+  subst ob0. destruct (Hr ar Har) as [kr [H1 H2]].
+  destruct (depth_refs _ _ _ _ H1) as [ob' [El' _]]. exists ob', k, kr. now repeat split.
+Qed.
+
+(* ------------------------------------------------------------------ extend through the memo *)
+Lemma shared_reference_once_extend_l d o d' :
+  extend_walk d o = Some d' ->
+  exists g xrows fl nx (memo : list (nat * nat)),
+    ext_graph d o = Some (g, xrows, fl, nx) /\
+    num_obs d' = num_obs d + num_obs o /\ rowids d' = rowids d ++ rowids o /\
+    Forall2 (fun pf qf => fst qf = fst pf /\ In (snd pf, snd qf) memo) fl (fields d') /\
+    (forall a n1 n2, In (a, n1) memo -> In (a, n2) memo -> n1 = n2) /\
+    (forall a1 a2 n, In (a1, n) memo -> In (a2, n) memo -> a1 = a2) /\
+    NoDup (map fst (store d')) /\
+    (forall a n, In (a, n) memo ->
+       exists ob rs, lookup a g = Some ob /\
+                     lookup n (store d') = Some (set_refs (xrows a ob) rs) /\
+                     Forall2 (fun ar r => fst r = fst ar /\ In (snd ar, snd r) memo) (orefs ob) rs).
+Proof.
+  unfold extend_walk. destruct (ext_graph d o) as [[[[g xrows] fl] nx]|] eqn:Eg; [|discriminate].
+  destruct (walk_fields (S (length g)) xrows g fl (mkW [] [] nx)) as [[w fs]|] eqn:E; [|discriminate].
+  intro H. inversion H; subst; clear H. simpl.
+  destruct (walk_fields_ok _ _ _ _ _ _ _ (Inv_init xrows g nx) E) as [Hi [_ Hf]].
+  destruct Hi as [N1 [_ [_ [N2 [N3 C]]]]].
+  exists g, xrows, fl, nx, (wmemo w). split; [reflexivity|]. split; [reflexivity|]. split; [reflexivity|].
+  split; [exact Hf|]. split; [intros a n1 n2; now apply NoDup_fst_functional|].
+  split; [intros a1 a2 n; now apply NoDup_snd_injective|]. split; [exact N3|].
+  intros a n Hin. destruct (C _ _ Hin) as [ob [rs [L1 [L2 L3]]]]. exists ob, rs.
+  split; [assumption|]. split; [now apply In_NoDup_lookup|exact L3].
+Qed.
+
+(* what the walk builds for an object: fill appended / prepended for objects without a partner *)
+Lemma ext_graph_fill d o g xrows fl nx id ob :
+  ext_graph d o = Some (g, xrows, fl, nx) ->
+  find (fun ab => Nat.eqb (fst ab) id) (all_pairs d o) = None ->
+  orows (xrows id ob) =
+    if existsb (fun x => Nat.eqb (fst x) id) (store d)
+    then orows ob ++ fill_rows (num_obs o) ob else fill_rows (num_obs d) ob ++ orows ob.
+Proof.
+  unfold ext_graph. destruct (extend all_off d o); [|discriminate]. intro H. inversion H; subst; clear H.
+  intro Hf. cbv beta. rewrite Hf. destruct (existsb (fun x => Nat.eqb (fst x) id) (store d)); reflexivity.
+Qed.
